@@ -646,6 +646,52 @@ func main() {
 			}
 		}
 	})
+	// total ORDER BY with ties on the first key (bqlm.KindGraph: two subjects share every value, one instant is
+	// written in two zones): the later key decides, so the sequence is the same however the rows reach the sort —
+	// one graph, the data split over two FROM graphs in several ways and listing orders, every chanSize
+	kg := bqlm.KindGraph()
+	cl := func(s, p, o bqlm.Term) bqlm.Clause { return bqlm.Clause{S: s, P: p, O: o} }
+	bt := func(n string) bqlm.Term { return bqlm.Term{Kind: bqlm.Bind, Name: n} }
+	var tieBases [][]bqlm.Clause
+	for _, id := range []string{"ki", "kf", "kt", "kn"} {
+		tieBases = append(tieBases, []bqlm.Clause{cl(bt("?s"), bqlm.Term{Kind: bqlm.Const, P: model.PI(id)}, bt("?v"))})
+	}
+	tieBases = append(tieBases, []bqlm.Clause{cl(bt("?s"), bqlm.Term{Kind: bqlm.AnchorBind, ID: "t", Name: "?v"}, bt("?o"))})
+	tieBases = append(tieBases, []bqlm.Clause{cl(bt("?s"), bqlm.Term{Kind: bqlm.Const, P: model.PI("ki")}, bt("?v")), cl(bt("?s"), bqlm.Term{Kind: bqlm.Const, P: model.PI("kf")}, bt("?w"))})
+	splits := []func(i int) bool{func(i int) bool { return i%2 == 0 }, func(i int) bool { return i < len(kg)/2 }, func(i int) bool { return i%3 == 0 }}
+	var tieSeqs int64
+	for bi, cs := range tieBases {
+		for ki, keys := range [][]bqlm.Key{{{Binding: "?v"}, {Binding: "?s"}}, {{Binding: "?v", Desc: true}, {Binding: "?s"}}, {{Binding: "?v"}, {Binding: "?s", Desc: true}}} {
+			q := &bqlm.Query{From: []string{"?g"}, Where: cs, Proj: []bqlm.Proj{{Binding: "?s"}, {Binding: "?v"}}, OrderBy: keys}
+			first := run(bqlm.NewStore(map[string][]*triple.Triple{"?g": kg}), q, 0)
+			if first.failed {
+				continue
+			}
+			for si, in := range splits {
+				var a, b []*triple.Triple
+				for i, t := range kg {
+					if in(i) {
+						a = append(a, t)
+					} else {
+						b = append(b, t)
+					}
+				}
+				st2 := bqlm.NewStore(map[string][]*triple.Triple{"?g": a, "?h": b})
+				for _, from := range [][]string{{"?g", "?h"}, {"?h", "?g"}} {
+					for _, cs2 := range []int{0, 1, 3} {
+						q2 := &bqlm.Query{From: from, Where: cs, Proj: q.Proj, OrderBy: keys}
+						o := run(st2, q2, cs2)
+						atomic.AddInt64(&c.evals, 1)
+						tieSeqs++
+						if o.failed || strings.Join(o.seq, "\n") != strings.Join(first.seq, "\n") {
+							c.fail("total-order-sequence", q, fmt.Sprintf("%s\n split %d, chanSize=%d", q2.Render(), si, cs2), kg, fmt.Sprintf("tie:%d:%d:%d", bi, ki, si), fmt.Sprintf("one graph: %v\n two graphs: %v", first.seq, o.seq))
+						}
+					}
+				}
+			}
+		}
+	}
+	r.Set("ordered_sequences_with_ties_compared", int(tieSeqs))
 	r.Set("ordered_sequences_compared", int(seqs))
 	phase("sequences done")
 
@@ -785,6 +831,28 @@ func replayCase(raw json.RawMessage) (bool, string) {
 			return false, fmt.Sprintf("rows lost: %v -> %v", base.rows, o.rows)
 		}
 		return true, "no row lost"
+	case k.Relation == "total-order-sequence" && strings.HasPrefix(k.Gen, "tie:"):
+		var bi, ki, si int
+		fmt.Sscanf(k.Gen, "tie:%d:%d:%d", &bi, &ki, &si)
+		var a, b []*triple.Triple
+		for i, t := range data {
+			if (si == 0 && i%2 == 0) || (si == 1 && i < len(data)/2) || (si == 2 && i%3 == 0) {
+				a = append(a, t)
+			} else {
+				b = append(b, t)
+			}
+		}
+		st2 := bqlm.NewStore(map[string][]*triple.Triple{"?g": a, "?h": b})
+		for _, from := range []string{"FROM ?g, ?h", "FROM ?h, ?g"} {
+			text := strings.Replace(k.Base, "FROM ?g", from, 1)
+			for _, cs := range []int{0, 1, 3} {
+				o, _ := exe(st2, text, cs)
+				if o.failed || strings.Join(o.seq, "|") != strings.Join(base.seq, "|") {
+					return false, fmt.Sprintf("sequence differs (%s, chanSize %d): %v vs %v", from, cs, base.seq, o.seq)
+				}
+			}
+		}
+		return true, "same sequence over one graph and over the two-graph split"
 	case k.Relation == "total-order-sequence":
 		for i := 0; i < 20; i++ {
 			o, _ := exe(st, k.Base, i%4)
